@@ -35,6 +35,25 @@ pub enum Kind {
     Fail { code: u8, after: usize },
     /// the stream ends without any response
     Silent,
+    /// a transaction of n responses in any of the representations the
+    /// `CallResult` API offers for the feedback: `BeginTransaction` as a
+    /// feedback-only item before the first response or attached to the first
+    /// response (`CallResult::with_feedback`); `end`: 0 = `EndTransaction` as
+    /// a feedback-only item after the last response, 1 = attached to the last
+    /// response, 2 = the stream simply ends; `noop_reconf`: responses that
+    /// carry no other feedback carry `Reconfigure { idle_timeout: None }`
+    /// (changes nothing)
+    Txn { n: usize, gap_ms: u32, begin_attached: bool, end: u8, noop_reconf: bool },
+}
+
+/// how the end of a `Kind::Txn` is really signalled (one item carries at
+/// most one feedback)
+pub fn txn_end(n: usize, begin_attached: bool, end: u8) -> u8 {
+    if end == 1 && n == 1 && begin_attached {
+        0
+    } else {
+        end.min(2)
+    }
 }
 
 impl std::fmt::Debug for Shape {
@@ -105,16 +124,29 @@ impl Plan {
     pub fn total_ms(&self) -> u64 {
         self.delay_ms as u64
             + match &self.kind {
-                Kind::Multi { n, gap_ms, .. } => *n as u64 * *gap_ms as u64,
+                Kind::Multi { n, gap_ms, .. } | Kind::Txn { n, gap_ms, .. } => *n as u64 * *gap_ms as u64,
                 _ => 0,
             }
     }
     pub fn n_responses(&self) -> usize {
         match &self.kind {
             Kind::Single => 1,
-            Kind::Multi { n, .. } => *n,
+            Kind::Multi { n, .. } | Kind::Txn { n, .. } => *n,
             Kind::Fail { after, .. } => after + 1,
             Kind::Silent => 0,
+        }
+    }
+    /// Response `i` of the plan is produced while the service has a
+    /// transaction open (`BeginTransaction` given before it or together with
+    /// it, `EndTransaction` not yet given): the connection has to wait for
+    /// room in its response queue instead of discarding it. A response that
+    /// itself carries `EndTransaction` is not counted (the transaction ends
+    /// with that item).
+    pub fn in_transaction(&self, i: usize) -> bool {
+        match &self.kind {
+            Kind::Multi { n, transaction, .. } => *transaction && i < *n,
+            Kind::Txn { n, begin_attached, end, .. } => i < *n && !(txn_end(*n, *begin_attached, *end) == 1 && i + 1 == *n),
+            _ => false,
         }
     }
 }
@@ -383,6 +415,44 @@ async fn next_item(mut st: St) -> Option<(ServiceResult<Vec<u8>>, St)> {
                 st.log(Produced::Err(e.rcode().to_int()));
                 st.finish();
                 Some((Err(e), st))
+            }
+        }
+        Kind::Txn { n, gap_ms, begin_attached, end, noop_reconf } => {
+            // steps: [begin] r0 r1 .. r(n-1) [end]
+            let end = txn_end(n, begin_attached, end);
+            let off = if begin_attached { 0 } else { 1 };
+            if !begin_attached && step == 0 {
+                return Some((Ok(CallResult::feedback_only(ServiceFeedback::BeginTransaction)), st));
+            }
+            let i = step - off;
+            if i < n {
+                if i > 0 && gap_ms > 0 {
+                    tokio::time::sleep(Duration::from_millis(gap_ms as u64)).await;
+                }
+                let fb = if i == 0 && begin_attached {
+                    Some(ServiceFeedback::BeginTransaction)
+                } else if i + 1 == n && end == 1 {
+                    Some(ServiceFeedback::EndTransaction)
+                } else if noop_reconf {
+                    Some(ServiceFeedback::Reconfigure { idle_timeout: None })
+                } else {
+                    None
+                };
+                let r = st.respond(i as u32);
+                let r = match (r, fb) {
+                    (Ok(cr), Some(fb)) => Ok(cr.with_feedback(fb)),
+                    (r, _) => r,
+                };
+                if r.is_err() || (end != 0 && i + 1 == n) {
+                    st.finish();
+                }
+                Some((r, st))
+            } else if end == 0 && i == n {
+                st.finish();
+                Some((Ok(CallResult::feedback_only(ServiceFeedback::EndTransaction)), st))
+            } else {
+                st.finish();
+                None
             }
         }
         Kind::Multi { n, gap_ms, transaction } => {
